@@ -15,9 +15,12 @@ def gen(x):
         raise x.ShapeError("mdsdrv.cpp:add_song chunk names %r" % ccs)
     for c in ccs:
         w.append("def link_cc_%s : Nat := %d  -- FOURCC(\"%s\")" % (c.strip(), int.from_bytes(c.encode(), "big"), c))
+    # repaired D11: the re-homed sample is the playback window [position + start, +size), handed over with start = 0
+    x.need(re.search(r"begin\s*=\s*pcmd\.begin\(\)\s*\+\s*header\.position\s*\+\s*header\.start;\s*auto end\s*=\s*begin\s*\+\s*header\.size;\s*"
+                     r"header\.position\s*=\s*0;\s*header\.start\s*=\s*0;", add), "mdsdrv.cpp:add_song extracts the playback window of a pcmh entry")
     m = x.need(re.search(r'group_str\s*=\s*"(\w+)"', add), "mdsdrv.cpp:add_song default group")
     w.append("def link_defaultGroup : List Nat := [%s]  -- \"%s\"" % (", ".join(str(b) for b in m.group(1).encode()), m.group(1)))
-    # the model indexes the sample headers with the full result of add_sample (fix 8d3c42d: no uint16_t in between)
+    # the model indexes the sample headers with the full result of add_sample (fix 8769e2a: no uint16_t in between)
     x.need(re.search(r"unsigned int\s+(\w+)\s*=\s*wave_rom\.add_sample\(.*?get_sample_headers\(\)\.at\(\1\)", add, flags=re.S),
            "mdsdrv.cpp:add_song sample index kept in an unsigned int")
     m = x.need(re.search(r"std::vector<uint8_t> MDSDRV_Linker::get_seq_data\(\).*?\n\}\n", md, flags=re.S), "mdsdrv.cpp:get_seq_data")
